@@ -6,8 +6,9 @@ import sys
 import time
 
 VERIF = os.path.dirname(os.path.dirname(os.path.abspath(__file__)))
-EVIDENCE_DIR = os.path.join(VERIF, "evidence")
-REPLAY_DIR = os.path.join(VERIF, "replays")
+# VERIF_OUT redirects evidence and replays (used when the checks are tried against seeded changes)
+EVIDENCE_DIR = os.path.join(os.environ.get("VERIF_OUT", VERIF), "evidence")
+REPLAY_DIR = os.path.join(os.environ.get("VERIF_OUT", VERIF), "replays")
 FINDINGS_FILE = os.path.join(VERIF, "known_findings.json")
 
 
